@@ -61,8 +61,11 @@ def gen_case(rng, size):
             ops.append('contains %s' % hex8(qkey()))
         elif r < 0.72:
             ops.append('minkey %s' % hex8(qkey()))
-        elif r < 0.89:
+        elif r < 0.84:
             ops.append('maxkey %s' % hex8(qkey()))
+        elif r < 0.89:
+            # FileStorage.record_iternext(next): `next` present, absent, absent prefix, None
+            ops.append('iternext %s' % ('none' if rng.random() < 0.1 else hex8(qkey())))
         elif r < 0.91:
             ops.append(rng.choice(['minkey', 'maxkey']))
         elif r < 0.93:
@@ -87,7 +90,7 @@ def gen_case(rng, size):
         else:
             if present:
                 ops.append('bucketstr %s' % hex8(rng.choice(sorted(present))))
-    ops += ['items', 'len', 'keys', 'values', 'minkey', 'maxkey', 'saveload 12345', 'items']
+    ops += ['items', 'len', 'keys', 'values', 'minkey', 'maxkey', 'iternext none', 'saveload 12345', 'items']
     return ops
 
 
@@ -98,8 +101,20 @@ def errname(e):
             'error': 'err:StructError'}.get(n, 'err:Other(%s)' % n)
 
 
+class _IndexOnlyStorage(object):
+    """what FileStorage.record_iternext needs from `self`: the index and a load.  The REAL method is run
+    over it (unbound), so the index part of record iteration is the code under test."""
+
+    def __init__(self, ix):
+        self._index = ix
+
+    def loadBefore(self, oid, tid):
+        return b'record of ' + oid, b'\0' * 7 + b'\1', None
+
+
 def run_real(ops, tmpdir):
     from ZODB.fsIndex import fsIndex
+    from ZODB.FileStorage.FileStorage import FileStorage
     ix = fsIndex()
     out = []
     for op in ops:
@@ -163,6 +178,12 @@ def run_real(ops, tmpdir):
             elif t[0] in ('minkey', 'maxkey'):
                 f = ix.minKey if t[0] == 'minkey' else ix.maxKey
                 r = (f() if len(t) == 1 else f(p64(int(t[1], 16)))).hex()
+            elif t[0] == 'iternext':
+                nx = None if t[1] == 'none' else p64(int(t[1], 16))
+                oid, tid, data, nxt = FileStorage.record_iternext(_IndexOnlyStorage(ix), nx)
+                r = '%s %s' % (oid.hex(), 'none' if nxt is None else nxt.hex())
+                if data != b'record of ' + oid:
+                    r += ' loaded-another-record'
             elif t[0] == 'saveload':
                 fn = os.path.join(tmpdir, 'ix.index')
                 ix.save(int(t[1]), fn)
@@ -236,6 +257,12 @@ def run_oracle(ops):
             else:
                 i = bisect.bisect_right(ks, int(t[1], 16))
                 r = hex8(ks[i - 1]) if i > 0 else 'err:ValueError'
+        elif t[0] == 'iternext':
+            i = 0 if t[1] == 'none' else bisect.bisect_left(ks, int(t[1], 16))
+            if i >= len(ks):
+                r = 'err:ValueError'
+            else:
+                r = '%s %s' % (hex8(ks[i]), hex8(ks[i + 1]) if i + 1 < len(ks) else 'none')
         elif t[0] == 'saveload':
             r = 'pos=%d [%s]' % (int(t[1]), ','.join('%s:%d' % (hex8(k), d[k]) for k in ks))
         elif t[0] == 'bucketstr':
